@@ -7,8 +7,12 @@ import struct
 from . import common as c
 
 PRE = ("From Coq Require Import NArith ZArith List Bool String.\nImport ListNotations.\n"
-       "From CB Require Import Cbor.CborCore Cbor.CborSchema Cbor.TokenSchemas Cbor.TokenAmount Cbor.Hex.\n"
+       "From CB Require Import Cbor.CborCore Cbor.CborSchema Cbor.TokenSchemas Cbor.TokenAmount Cbor.Hex Cbor.DecimalConv Cbor.Header Cbor.FloatBits.\n"
        "Local Open Scope N_scope.\n")
+
+PRE_CONV = ("From Coq Require Import NArith List Bool.\nImport ListNotations.\n"
+            "From CB Require Import Cbor.CborCore Cbor.TokenAmount Cbor.DecimalConv Cbor.Header Cbor.FloatBits.\n"
+            "Local Open Scope N_scope.\n")
 
 # allocation bound asserted on the implementation: peak <= C0 + C1 * |input| per decode.
 # (the model's ghost counter is proved to stay below 4096 + 8256 * |input|, see Props/C17.v; the
@@ -429,6 +433,151 @@ def chunk_stage(ctx, binp, T, bump):
                                  "shapes": sorted({x["shape"].split("/")[0] for x in cases})}
 
 
+def h_coq(h):
+    """harness header JSON -> Coq term of type hdr"""
+    k = h[0]
+    if k == "HBreak":
+        return "HBreak"
+    if k in ("HBytes", "HText", "HArray", "HMap"):
+        return "(%s %s)" % (k, "None" if h[1] is None else "(Some %s)" % h[1])
+    return "(%s %s)" % (k, h[1])
+
+
+def h_model(t, fbits):
+    """model header term -> the harness JSON form (floats as the widened f64 pattern)"""
+    if t == "HBreak":
+        return ["HBreak"]
+    k = t[0]
+    if k == "HFloat":
+        return ["HFloat", str(fbits)]
+    if k in ("HBytes", "HText", "HArray", "HMap"):
+        return [k, None if t[1] == "None" else str(t[1][1])]
+    return [k, str(t[1])]
+
+
+def conv_stage(ctx, binp, T, bump):
+    """stage 7: Decimal <-> TokenAmount (DecimalConv.v), heads (Header.v / CborCore.pull), float widths (FloatBits.v)"""
+    n = 200 if ctx.quick else 2000
+    rc, out = c.run_bin(binp, ["conv", ctx.seed, n], timeout=900)
+    if rc != 0:
+        ctx.violation({"layer": "harness run", "mode": "conv", "output": out[-2000:]}, "conv harness crashed", no_input=True)
+        return
+    cases = lines(out)
+    exprs = []
+    for cs in cases:
+        k = cs["k"]
+        if k == "dec":
+            exprs.append("show_conv (try_from_decimal (mk_dec %s %s %d) %d %s)" % ("true" if cs["neg"] else "false", cs["m"], cs["sc"], cs["d"], cs["rule"]))
+        elif k == "todec":
+            exprs.append("show_dec (try_to_decimal (mk_amt %s %d))" % (cs["value"], cs["decimals"]))
+        elif k == "pull":
+            bs = "[" + ";".join(str(b) for b in bytes.fromhex(cs["hex"])) + "]"
+            exprs.append("(show_pull %s, match pull %s with Some (HFloat w b, _) => fdecode w b | _ => 0 end)" % (bs, bs))
+        elif k == "push":
+            exprs.append("encode_hdr %s" % h_coq(cs["h"]))
+        elif k == "fenc":
+            exprs.append("fencode %s" % cs["bits"])
+        else:
+            exprs.append("fdecode %d %s" % (cs["w"], cs["bits"]))
+    terms = c.coq_eval(ctx, "conv", PRE_CONV, exprs, shard=330 if ctx.quick else 800)
+    cls = {}
+    nonshort = 0
+    nan_notes = []
+    for cs, t in zip(cases, terms):
+        k = cs["k"]
+        bump("conv:" + k)
+        if k == "dec":
+            ir = cs["r"]
+            T.case(["dec", cs["neg"], cs["m"], cs["sc"], cs["d"], cs["rule"]], isinstance(ir, list) and ir[0] == 0)
+            m, sc, d = int(cs["m"]), cs["sc"], cs["d"]
+            key = "dec:%s:%s" % (cs["rule"], {0: "ok", 1: "RustDecimal", 2: "ValueOverflow", 3: "LossOfPrecision"}.get(ir[0], "?") if isinstance(ir, list) else ir)
+            cls[key] = cls.get(key, 0) + 1
+            if ir == "PANIC":
+                T.violation({"case": cs}, "TokenAmount::try_from_rust_decimal panicked")
+                continue
+            if [t[0], t[1], t[2]] != [ir[0], int(ir[1]), ir[2]]:
+                T.violation({"case": cs, "model": list(t), "layer": "DecimalConv.try_from_decimal (theorems token_amount_decimal_*)"},
+                            "try_from_rust_decimal(%s%s e-%d, %d, %s) = %s, model %s" % ("-" if cs["neg"] else "", cs["m"], sc, d, cs["rule"], ir, list(t)))
+            if ir[0] == 0:
+                v = int(ir[1])
+                # direct oracles on the implementation alone (exact integers)
+                if cs["rule"] == "Exact":
+                    if v * 10 ** sc != m * 10 ** d or (cs["neg"] and m != 0):
+                        T.violation({"case": cs}, "Exact conversion from rust_decimal changed the numerical value")
+                else:
+                    if sc > d:
+                        kk = 10 ** (sc - d)
+                        want = (m + kk // 2) // kk
+                        cls["dec:rounded" if m % kk else "dec:round_not_needed"] = cls.get("dec:rounded" if m % kk else "dec:round_not_needed", 0) + 1
+                        if m % kk and (m % kk) * 2 == kk:
+                            cls["dec:tie"] = cls.get("dec:tie", 0) + 1
+                    else:
+                        want = m * 10 ** (d - sc)
+                    if v != want or (cs["neg"] and v != 0) or abs(v * 10 ** sc - m * 10 ** d) * 2 > 10 ** max(sc, d):
+                        T.violation({"case": cs, "want": want}, "AllowRounding conversion is not round-half-up (ties away from zero) of the decimal")
+            elif ir[0] == 3 and not (sc > d and m % 10 ** (sc - d)):
+                T.violation({"case": cs}, "LossOfPrecision reported for a conversion that needs no rounding")
+        elif k == "todec":
+            ir = cs["r"]
+            T.case(["todec", cs["value"], cs["decimals"]], isinstance(ir, list))
+            mt = opt(t)
+            mm = None if mt is None else [mt[0] == "true", str(mt[1]), mt[2]]
+            if ir == "PANIC" or (ir == "ERR") != (mm is None) or (mm is not None and mm != ir):
+                T.violation({"case": cs, "model": mm, "layer": "DecimalConv.try_to_decimal"}, "try_to_rust_decimal differs from the model")
+            if isinstance(ir, list) and (cs["back"] is not True or ir != [False, cs["value"], cs["decimals"]]):
+                T.violation({"case": cs}, "try_from_rust_decimal(try_to_rust_decimal(a), Exact) != a")
+        elif k == "pull":
+            ir = cs["r"]
+            cls["pull:" + cs["class"]] = cls.get("pull:" + cs["class"], 0) + 1
+            T.case(["pull", cs["hex"]], isinstance(ir, dict))
+            mt = opt(t[0])
+            if ir == "PANIC":
+                T.violation({"case": cs}, "ciborium-ll Decoder::pull panicked")
+                continue
+            if mt is None:
+                mm = "ERR"
+            else:
+                mm = {"off": mt[1], "h": h_model(mt[0], t[1])}
+            if mm != ir:
+                T.violation({"case": cs, "model": mm, "layer": "CborCore.pull (theorems header_*)"}, "header reader differs from the model on %s" % cs["hex"])
+            elif cs["class"] == "nonshortest" and isinstance(ir, dict):
+                nonshort += 1
+        elif k == "push":
+            T.case(["push", cs["h"]], True)
+            if cs["r"] == "PANIC" or list(bytes.fromhex(cs["r"])) != list(t):
+                T.violation({"case": cs, "model": hx(t), "layer": "Header.encode_hdr"}, "header writer differs from the model on %s" % cs["h"])
+        elif k == "fenc":
+            cls["fenc:" + cs["class"]] = cls.get("fenc:" + cs["class"], 0) + 1
+            T.case(["fenc", cs["bits"]], True)
+            b = bytes.fromhex(cs["hex"]) if not cs["hex"].startswith(("ERR", "PANIC")) else b""
+            iw = {0xf9: 2, 0xfa: 4, 0xfb: 8}.get(b[0] if b else None)
+            got = [iw, int.from_bytes(b[1:], "big")] if iw and len(b) == 1 + iw else cs["hex"]
+            cls["fenc:width%s" % (iw,)] = cls.get("fenc:width%s" % (iw,), 0) + 1
+            if got != [t[0], t[1]]:
+                if cs["nan"] and isinstance(got, list):
+                    nan_notes.append({"bits": cs["bits"], "impl": got, "model": [t[0], t[1]]})
+                else:
+                    T.violation({"case": cs, "model": [t[0], t[1]], "layer": "FloatBits.fencode (theorems float_*)"}, "float width selection differs from the model on bits %s" % cs["bits"])
+            if cs["back"] != cs["bits"]:
+                if cs["nan"] and cs["back"] is not None:
+                    nan_notes.append({"bits": cs["bits"], "decode_encode": cs["back"]})
+                else:
+                    T.violation({"case": cs}, "decode(encode f) != f bit for bit (non-NaN double)")
+        else:
+            T.case(["fdec", cs["w"], cs["bits"]], True)
+            if cs["r"] != str(t):
+                x = int(cs["bits"])
+                isnan = {2: (x >> 10) & 31 == 31 and x & 1023, 4: (x >> 23) & 255 == 255 and x & 0x7fffff, 8: (x >> 52) & 2047 == 2047 and x & (2 ** 52 - 1)}[cs["w"]]
+                if isnan and cs["r"] not in ("ERR", "PANIC"):
+                    nan_notes.append({"w": cs["w"], "bits": cs["bits"], "impl": cs["r"], "model": str(t)})
+                else:
+                    T.violation({"case": cs, "model": str(t), "layer": "FloatBits.fdecode"}, "float widening differs from the model on %d-byte payload %s" % (cs["w"], cs["bits"]))
+    cls["pull:nonshortest_accepted_by_both"] = nonshort
+    ctx.notes["conv_distribution"] = cls
+    ctx.notes["conv_nan_payload_differences"] = {"count": len(nan_notes), "samples": nan_notes[:5],
+        "meaning": "NaN payload handling is hardware/library dependent; differences are recorded, not violations"}
+
+
 def lines(out):
     return [json.loads(l) for l in out.splitlines() if l.startswith("{")]
 
@@ -436,11 +585,11 @@ def lines(out):
 def run(ctx):
     q = ctx.quick
     ctx.assumptions += [
-        "ciborium-ll 0.2.2 (header reader/writer, string segments, UTF-8 chunk parser) is modelled in Cbor/CborCore.v and diffed, not verified",
-        "floats are opaque payloads: the model carries (width, bits); f16/f32/f64 conversion is done by the check (python struct), NaN payloads are not compared",
+        "ciborium-ll 0.2.2: the header reader/writer model (CborCore.pull, Header.encode_hdr) is proved (accept set, consumed bytes, round trip, shortest, every width accepted) and diffed at every width boundary (stage 7); string segments and the UTF-8 chunk parser are modelled in Cbor/CborCore.v and diffed, not verified",
+        "floats: Value::Float leaves of stages 1-2 are opaque (width, bits) payloads converted by the check (python struct); the width selection / widening itself is the bit-pattern model Cbor/FloatBits.v (round trip proved for all 64-bit patterns, binary16 shortest by sweep), diffed in stage 7 incl. NaN classes; the narrowing conversions of the real code enter only as 'exact when representable' + NaN quieting",
         "a derive-generated decoder is modelled as the generic item decoder followed by a schema interpretation (Cbor/CborSchema.v); the schema terms of the token types (Cbor/TokenSchemas.v) are proved equal to the terms regenerated from the Rust declarations on every run (translators/gen_cbor_schemas.py -> Gen/CborSchemas.v, theorem generated_schemas_match) and exercised by encoding/decoding every type on both sides; the interpretation of the attributes is that of concordium_base_derive/src/cbor.rs as read by the translator and CborSchema.v",
-        "rust_decimal (string -> Decimal -> rescale) is modelled at the level of its accepted language and result, diffed, not verified",
-        "nesting deeper than 64 is outside the claim (DESIGN.md O3): behaviour recorded under notes.deep_nesting_observation",
+        "rust_decimal: Decimal::rescale is modelled loop by loop (Cbor/DecimalConv.v) and try_from_rust_decimal / try_to_rust_decimal are proved for all decimals and diffed on Decimal::from_parts (stage 7); string parsing (from_str / from_str_exact) is modelled at the level of its accepted language and result, diffed, not verified; the rounding done while parsing under AllowRounding is diffed only",
+        "the code has no nesting limit and the model theorems hold at every depth (nesting_depth_bounded_by_input, nesting_no_limit); beyond depth 64 only the native stack of the real decoder is outside the claim (DESIGN.md O3): behaviour recorded under notes.deep_nesting_observation",
         "size_of::<Value>() = 32 (reported by the harness and asserted)",
     ]
     # 0. translator: Rust declarations of the derive(CborSerialize, CborDeserialize) types -> coq/Gen/CborSchemas.v
@@ -461,7 +610,7 @@ def run(ctx):
         proof_broken = info
         ctx.log("proof obligations broken:", info["failed_file"], info["error"][-600:])
     # the proof-free model files build independently of the proofs
-    okb, out = c.coq_build(ctx, ["Cbor/TokenSchemas.vo", "Cbor/TokenAmount.vo", "Cbor/Hex.vo"])
+    okb, out = c.coq_build(ctx, ["Cbor/TokenSchemas.vo", "Cbor/TokenAmount.vo", "Cbor/Hex.vo", "Cbor/DecimalConv.vo", "Cbor/Header.vo", "Cbor/FloatBits.vo"])
     if not okb:
         ctx.violation({"layer": "Coq model build", "error": out}, "the executable model no longer builds", no_input=True)
         return
@@ -804,6 +953,8 @@ def run(ctx):
             if (ir is None) != (mr is None) or (mr is not None and [str(mr[0]), mr[1]] != ir):
                 T.violation({"case": cs, "model": mr}, "TokenAmount JSON parsing differs from the model")
 
+    ctx.log("stage 7. conversions: decimal / heads / float widths")
+    conv_stage(ctx, binp, T, bump)
     ctx.log("stage 6. nesting deeper")
     # ------------------------------------------------------------------ 6. nesting deeper than 64: observation only
     obs = {}
@@ -826,7 +977,7 @@ def run(ctx):
         "trailing bytes, reserved/break head bytes, huge declared lengths, insert break, delete, swap) plus random bytes; typed: every token "
         "type with all optional-field combinations, then map/tag perturbations (drop entry, unknown text/int key, reorder, duplicate key, "
         "wrong type, null, key typo, retag, untag, array length/element incl. bignums) under non-canonical writers, decoded with Fail and "
-        "Ignore; amounts: Display/JSON of boundary amounts, decimal strings incl. malformed ones at precisions 0..255. "
+        "Ignore; amounts: Display/JSON of boundary amounts, decimal strings incl. malformed ones at precisions 0..255; conversions (stage 7): Decimal::from_parts with mantissas 0/1/5*10^k(+-1)/10^k(-1)/u64::MAX(+1)/2^96-1/random, scales 0..28, decimals 0..30 and 255, both signs and rules; heads of every major type x argument boundary x width, truncations, reserved infos, random bytes; f64 patterns at f16/f32/f64 subnormal/normal/overflow boundaries +-1 ulp, NaN classes, random (distribution in notes.conv_distribution). "
         "non-trivial = the implementation accepted / produced a value; distinct = canonical case hash")
     if tie_broken:
         ctx.violation({"layer": "translator (Rust declarations -> schema terms)", "error": tie_broken},
